@@ -112,7 +112,8 @@ Inductive ex :=
 | EDbl (text : string) (n : Z) (d : positive)   (* floating literal *)
 | EDiv (a b : ex)                               (* a / b : Python's true division *)
 | ENeg (a : ex)                                 (* -a *)
-| EFun (f : string) (a : ex).                   (* one-argument math function, f the C++ name *)
+| EFun (f : string) (a : ex)                    (* one-argument math function, f the C++ name *)
+| EBool (is_and : bool) (a b : ex).             (* a and b / a or b : the second operand's code sits in `if (v)` / `if (!v)` *)
 
 Definition nm (base : string) (n : nat) : string := base +++ dec_nat n.
 
@@ -215,6 +216,7 @@ Fixpoint ex_type (e : ex) : string :=
                    else if String.eqb (ex_type a) "int" && String.eqb (ex_type b) "int" then "int" else "double"
   | EIdx _ _ _ | EDbl _ _ _ | EDiv _ _ | EFun _ _ => "double"
   | ENeg a => ex_type a
+  | EBool _ _ _ => "bool"
   end.
 (* visit_BinOp for `/` at event level: the same rule as inside a lambda (div_needs_cast) *)
 Definition ex_div_needs_cast (a b : ex) : bool := negb (String.eqb (ex_type a) "double" || String.eqb (ex_type b) "double").
@@ -241,6 +243,15 @@ Fixpoint te (idiom : string) (e : ex) (n : nat) : list decl * stmts * cexp * nat
       (da ++ db, app_stmts sa sb, CBin "/" (if ex_div_needs_cast a b then CCast "double" ca else ca) cb, n2)
   | ENeg a => let '(da, sa, ca, n1) := te idiom a n in (da, sa, CUn "-" ca, n1)
   | EFun f a => let '(da, sa, ca, n1) := te idiom a n in (da, sa, CCall f (CCons ca CNil), n1)
+  | EBool is_and a b =>
+      (* visit_BoolOp: the result variable is named first and declared in the current block; the first operand's code
+         follows in the current block; the second operand's declarations and code are inside the if block *)
+      let v := nm "bool_op" n in
+      let '(da, sa, ca, n1) := te idiom a (S n) in
+      let '(db, sb, cb, n2) := te idiom b n1 in
+      (bo_decl v :: da,
+       bo_lower is_and v sa ca [bo_operand v db sb cb],
+       CVar v, n2)
   end.
 
 Definition col_name (n : nat) : string := nm "_col1" n.   (* = mem_name "col1" n (cident "col1" = "col1") *)
@@ -266,6 +277,7 @@ Fixpoint ex_size (e : ex) : nat :=
   match e with
   | EInt _ | EDbl _ _ _ => 0 | ECount k => 3 + gsize (k_guard k) + agg_nifs (k_agg k)
   | EBin _ a b | EDiv a b => ex_size a + ex_size b | EIdx _ _ _ => 1 | ENeg a | EFun _ a => ex_size a
+  | EBool _ a b => S (ex_size a + ex_size b)
   end.
 Definition col_size (c : column) : nat :=
   match c with ColScalar e => ex_size e | ColVec _ g body => 2 + gsize g + nifs body | ColFirst _ g _ _ => 3 + gsize g end.
@@ -438,6 +450,8 @@ Definition didx (ev : event) (c : collref) (i : nat) (m : string) : res value :=
   | Some VNull => RFault FNullDeref
   | Some _ => RStuck (KType "the bank does not hold a collection")
   end.
+(* a value read back from a variable: an uninitialised cell has none (only on ill-typed events) *)
+Definition rdv (v : value) : res value := match v with VUninit => RStuck (KUninit "bool_op") | _ => ROk v end.
 Fixpoint de (ev : event) (e : ex) : res value :=
   match e with
   | EInt z => ROk (VInt z)
@@ -448,6 +462,10 @@ Fixpoint de (ev : event) (e : ex) : res value :=
   | EDiv a b => rdo x <- de ev a; rdo y <- de ev b; arith "/" (if ex_div_needs_cast a b then conv "double" x else x) y
   | ENeg a => rdo x <- de ev a; unary "-" x
   | EFun f a => rdo x <- de ev a; ROk (VSym f [math_arg x])
+  | EBool is_and a b =>
+      (* lazy: the second operand is evaluated only when the first does not decide *)
+      rdo x <- de ev a; rdo t <- truth (conv "bool" x);
+      if Bool.eqb t is_and then rdo y <- de ev b; rdv (conv "bool" y) else ROk (conv "bool" x)
   end.
 (* The emitted code works in two phases: first the statements of every sub-expression (retrievals and loops, left to
    right), then the value expression (where at() is evaluated).  `dstm` is what can go wrong in the first phase; `dex` is
@@ -463,6 +481,11 @@ Fixpoint dstm (ev : event) (e : ex) : res unit :=
   | EDbl _ _ _ => ROk tt
   | EDiv a b => rdo _ <- dstm ev a; dstm ev b
   | ENeg a | EFun _ a => dstm ev a
+  | EBool is_and a b =>
+      (* everything about a boolean operation happens in the first phase (its value is then read off the variable):
+         the first operand in its two phases, and - only if it does not decide - the second operand in its two phases *)
+      rdo _ <- dstm ev a; rdo x <- de ev a; rdo t <- truth (conv "bool" x);
+      if Bool.eqb t is_and then rdo _ <- dstm ev b; rdo _ <- de ev b; ROk tt else ROk tt
   end.
 Definition dex (ev : event) (e : ex) : res value := rdo _ <- dstm ev e; de ev e.
 
@@ -638,6 +661,10 @@ Fixpoint d_ex_fuel (fuel : nat) (s : sexp) : option ex :=
         match d_Z n, d_Z d with Some n', Some (Zpos d') => Some (EDbl t n' d') | _, _ => None end
     | SList [SAtom "div"; a; b] =>
         match d_ex_fuel f a, d_ex_fuel f b with Some a', Some b' => Some (EDiv a' b') | _, _ => None end
+    | SList [SAtom "and"; a; b] =>
+        match d_ex_fuel f a, d_ex_fuel f b with Some a', Some b' => Some (EBool true a' b') | _, _ => None end
+    | SList [SAtom "or"; a; b] =>
+        match d_ex_fuel f a, d_ex_fuel f b with Some a', Some b' => Some (EBool false a' b') | _, _ => None end
     | SList [SAtom "neg"; a] => option_map ENeg (d_ex_fuel f a)
     | SList [SAtom "fun"; SAtom fn; a] => option_map (EFun fn) (d_ex_fuel f a)
     | SList [SAtom "idx"; SAtom base; SAtom ct; SAtom bank; ar; i; SAtom m] =>
